@@ -7,6 +7,11 @@
         *_async variants, Splitter join/split with frame conditions, Global::Filter / MeanFilter) -> harness/c13_gvec.cpp
   mux   spec/Gen_Muxer.tla (G: sibling groups, parent rank, child patches of unequal size; join/split/join_send/
         split_recv) -> harness/c13_gvec.cpp
+  xfer  spec/Gen_XferLayers.tla (G: Global::Transfer over a muxer with ghost processes: rest/trunc/prol on the parents,
+        rest_send/trunc_send/prol_recv on the ghosts, distinct restriction and truncation matrices, renumbered child patches)
+        -> harness/c13_xfer.cpp
+All per-rank data are in the rank's LOCAL numbering (spec/Renum.tla: identity, reversal, rotation, ...), so vector mirrors, row
+and column mirrors of the matrix buffers, splitter patch mirrors and muxer mirrors are not monotone in general.
 """
 import json, os, re, time
 import concurrent.futures as cf
@@ -234,9 +239,78 @@ def run_mux(chk, binary, ex):
     return total
 
 
-def run_ext(chk, gmat, gvec):
+# ---- grid transfer across process layers (ghost processes) ------------------------------------------------------------
+ALL2 = "{{1}, {2}, {1, 2}}"
+ALL3 = "{{1}, {2}, {3}, {1, 2}, {1, 3}, {2, 3}, {1, 2, 3}}"
+
+
+def xfer_plan(thorough):
+    p3 = "{{1, 2}, {2, 3}, {1, 2, 3}}"
+    # (nr, nf, nc, fine decompositions, parent patches, child patches, max groups, min groups, largest child renumbering kind)
+    plan = [(1, 2, 2, "{0}", ALL2, ALL2, 1, 1, 0),
+            (2, 2, 3, "{0, 1, 3}", p3, ALL3, 2, 1, 2),
+            (3, 2, 3, "{0, 1}", p3, "{{2}, {1, 2}, {1, 3}, {1, 2, 3}}", 2, 1, 1),
+            (4, 3, 2, "{1}", "{{1, 2}}", ALL2, 2, 2, 1)]
+    if thorough:
+        plan = [(1, 2, 2, "{0}", ALL2, ALL2, 1, 1, 0),
+                (2, 2, 3, "{0, 1, 2, 3}", ALL3, ALL3, 2, 1, 5),
+                (3, 2, 3, "{0, 1}", p3, ALL3, 3, 1, 1),
+                (3, 3, 3, "{1, 2}", "{{1, 2, 3}}", "{{2}, {1, 2}, {1, 3}, {1, 2, 3}}", 2, 1, 5),
+                (4, 3, 2, "{0, 1}", ALL2, ALL2, 4, 1, 1),
+                (5, 3, 2, "{1}", "{{1, 2}}", ALL2, 3, 2, 1),
+                (6, 3, 2, "{1}", "{{1, 2}}", "{{1}, {1, 2}}", 3, 2, 1)]
+    return plan
+
+
+def gen_xfer(nr, nf, nc, fsels, psets, csets, maxg, ming, renk):
+    name = "gen_Xfer_%d_%d_%d_%d_%d_%d_%d_%d.cfg" % (nr, nf, nc, maxg, ming, renk, len(csets) + 100 * len(fsels), os.getpid())
+    _cfg(name, "SPECIFICATION Spec\nCONSTANTS NR = %d NF = %d NC = %d FSELS = %s PSETS = %s CSETS = %s MAXG = %d MING = %d RENK = %d\n"
+         "INVARIANTS Emit LawLayers LawRenum LawDistinct\n" % (nr, nf, nc, fsels, psets, csets, maxg, ming, renk))
+    try:
+        return vlib.tlc("Gen_XferLayers", name, workers=1, timeout=1500)
+    finally:
+        _rm(name)
+
+
+def run_xfer(chk, binary, ex):
+    thorough = chk.tier == "thorough"
+    gens = [(ex.submit(gen_xfer, *p), p) for p in xfer_plan(thorough)]
+    bynr = {}
+    for f, p in gens:
+        r = f.result()
+        chk.add_tlc(r, "Gen_XferLayers nr=%d nf=%d nc=%d fsels=%s psets=%s csets=%s maxg=%d ming=%d renk=%d" % p)
+        if r.violation:
+            chk.model_violation(r, "Gen_XferLayers laws (%s)" % (p,))
+        bynr.setdefault(p[0], []).extend(r.printed)
+    total = ghosts = nonmono = 0
+    for nr in sorted(bynr):
+        seen, cases = set(), []
+        for c in bynr[nr]:
+            k = json.dumps([c["nf"], c["nc"], c["grp"], c["prank"], c["fdofs"], c["pdofs"], c["cdofs"]], sort_keys=True)
+            if k not in seen:
+                seen.add(k)
+                c["kind"] = "xfer"
+                cases.append(c)
+        total += replay(chk, binary, cases, nr, "c13_xfer",
+                        keyf=lambda c: json.dumps(["xfer", c["nr"], c["nf"], c["nc"], c["grp"], c["prank"], c["fdofs"], c["pdofs"], c["cdofs"]], sort_keys=True),
+                        nontrivial=lambda c: c["nghost"] >= 1)
+        ghosts += sum(1 for c in cases if c["nghost"] >= 1)
+        nonmono += sum(1 for c in cases if c["nonmono"])
+        if nr == 3 and cases:
+            gc = [x for x in cases if x["nghost"] >= 1 and x["nonmono"]]
+            c = gc[len(gc) // 2] if gc else cases[len(cases) // 2]
+            chk.sample({k: c[k] for k in ("kind", "nr", "grp", "prank", "isparent", "fdofs", "pdofs", "cdofs", "muxc", "muxp", "f", "rest", "trunc", "c", "prol")})
+    chk.extra["xfer_cases"] = total
+    chk.extra["xfer_cases_with_ghost_process"] = ghosts
+    chk.extra["xfer_cases_nonmonotone_muxer_mirror"] = nonmono
+    return total
+
+
+def run_ext(chk, gmat, gvec, gxfer=None):
     """all parts (the three parts run side by side: TLC generation in a small pool, one replay thread per part);
     returns the number of replayed cases"""
-    with cf.ThreadPoolExecutor(max_workers=5) as ex, cf.ThreadPoolExecutor(max_workers=3) as parts:
+    with cf.ThreadPoolExecutor(max_workers=5) as ex, cf.ThreadPoolExecutor(max_workers=4) as parts:
         futs = [parts.submit(run_mat, chk, gmat, ex), parts.submit(run_vec, chk, gvec, ex), parts.submit(run_mux, chk, gvec, ex)]
+        if gxfer is not None:
+            futs.append(parts.submit(run_xfer, chk, gxfer, ex))
         return sum(f.result() for f in futs)
